@@ -15,3 +15,4 @@ import QlibcModel.Props.C18
 #print axioms Qlibc.Props.C18.reads_in_bounds
 #print axioms Qlibc.Props.C18.result_depends_on_given_bytes_only
 #print axioms Qlibc.Props.C18.exported_wrappers_eq
+#print axioms Qlibc.Shapes.Hash.no_hidden_static_state
